@@ -524,6 +524,23 @@ class Intervals:
             if pl and pl[1] == ():
                 st[("i", pl[0])] = n
                 self._propagate_len_alias(st, pl[0], n)
+                # the compared temporary is a plain copy of another local that is not reassigned: what is learnt about the
+                # copy is learnt about the original (`if value > MAX` compares a copy of `value`)
+                cur, hops = pl[0], 0
+                while hops < 4:
+                    d = self.du.single_def(cur)
+                    if not (d and d[0] == "assign" and d[4]["k"] == "use" and d[4]["op"]["k"] == "copy"):
+                        break
+                    q = flow.op_place(d[4]["op"])
+                    nd = len(self.du.defs.get(q[0], [])) if q else 0
+                    if not q or q[1] != () or not ((q[0] <= self.body.arg_count and nd == 0) or nd == 1):
+                        break
+                    prev = st.get(("i", q[0]), self.local_default(q[0], "i"))
+                    m = prev.meet(n)
+                    if not m.empty():
+                        st[("i", q[0])] = m
+                    cur = q[0]
+                    hops += 1
         return st
 
     def _propagate_len_alias(self, st, int_local, iv):
